@@ -111,9 +111,12 @@ def mapTypedArgs {α : Type} (parser : Bytes → Option α) :
       | .ok none => .ok none
       | .ok (some ts) => .ok (some (t :: ts))
 
-/-- A function the Go side has but the model does not cover: evaluation answers `unmodelled`. -/
+/-- A function the Go side has but the model does not cover: the model can predict neither its value
+    nor its compile errors, so the builder leaves an `unmodelled:<name>` tag in the error list (the
+    driver then answers `unmodelled <name>` for the whole template) and a stage that, if ever
+    evaluated, answers `unmodelled` too. -/
 def unmodelledBuilder (name : String) : Builder := fun _ =>
-  .ok ⟨some (.panic ("unmodelled:" ++ name)), none⟩
+  .ok ⟨some (.panic ("unmodelled:" ++ name)), some ("unmodelled:" ++ name)⟩
 
 abbrev Table := List (String × Builder)
 
